@@ -12,6 +12,7 @@ import (
 	"kmipverif/simrt"
 
 	"github.com/ovh/kmip-go"
+	"github.com/ovh/kmip-go/kmipserver"
 	"github.com/ovh/kmip-go/ttlv"
 )
 
@@ -45,6 +46,7 @@ type C08Sc struct {
 	ServerPlan  []ConnFault    `json:"server_plan,omitempty"`
 	Chunk       int            `json:"chunk,omitempty"`
 	Capacity    int            `json:"capacity,omitempty"`
+	HTTP        []HTTPReqSc    `json:"http,omitempty"` // exchanges through the HTTP handler, concurrent with the connections
 }
 
 var c08Outcomes = []string{"ok", "ok", "ok", "et", "ep", "pe", "ps", "pS", "pi", "pn", "y2,ok", "sl300,ok", "sL300,ok", "sl5000,ok", "sL5000,ok", "y3,et"}
@@ -138,6 +140,11 @@ func genC08(g *simrt.Tape, tier string) any {
 	}
 	sc.Chunk = []int{simnet.ChunkMax, simnet.ChunkRandom, simnet.ChunkRandom}[g.Draw(3)]
 	sc.Capacity = []int{0, 0, 64, 1024}[g.Draw(4)]
+	if g.Draw(3) == 0 {
+		for i, n := 0, 1+g.Draw(4); i < n; i++ {
+			sc.HTTP = append(sc.HTTP, genHTTPReq(g))
+		}
+	}
 	return sc
 }
 
@@ -458,6 +465,13 @@ func execC08(x *X, scAny any) {
 		return true
 	}
 	_ = allDone
+	if len(sc.HTTP) > 0 {
+		hdl := kmipserver.NewHTTPHandler(w.exec)
+		for i := range sc.HTTP {
+			i := i
+			s.Spawn("http", func() { w.runHTTP(x, hdl, i, sc.HTTP[i]) })
+		}
+	}
 	s.Run()
 	x.CommonOracles("C08")
 	res := s.Result()
@@ -573,6 +587,15 @@ func c08FaultFloor(tier string) []*C08Sc {
 			sc := c08BaseWorkload()
 			sc.ServerPlan = []ConnFault{{Conn: 0, Op: op, Kind: kind}}
 			out = append(out, sc)
+		}
+	}
+	ok2 := &ReqSc{Version: 4, Items: []ItemSc{{Tok: "ok"}, {Tok: "ps"}}}
+	for enc := 0; enc < 3; enc++ {
+		for _, m := range []string{"", "truncate", "short-body", "long-length", "garbage", "empty", "no-length"} {
+			out = append(out, &C08Sc{HTTP: []HTTPReqSc{{Req: ok2, Enc: enc, Mangle: m, Pos: 20, ChunkLen: 7}}, Clients: []RawClientSc{{Canary: true, Acts: c08BaseWorkload().Clients[1].Acts}}})
+		}
+		for pos := 0; pos < 120; pos += 3 {
+			out = append(out, &C08Sc{HTTP: []HTTPReqSc{{Req: ok2, Enc: enc, Mangle: "corrupt", Pos: pos, Val: 0x41 + pos%7}}, Clients: []RawClientSc{{Canary: true, Acts: c08BaseWorkload().Clients[1].Acts}}})
 		}
 	}
 	for _, p := range c08Presets {
